@@ -1625,6 +1625,9 @@ TRUSTED = [
     "zeros, steps 1/n and total p within tolerance), not by the model's exact zero pattern (DESIGN C04 Reading)",
     "end-to-end / sequence cases in which a filter in use ranks tied values are judged by the Python oracle only (the outcome may depend on the tie order)",
     "the scripted optimizer plug-in and the table evaluator of the seq cases (harness code); EnsembleOptimizer/plan steps as executed by the real code",
+    "gradient entries whose row keeps at most 1e-9 of its mass after the realizations lost to perturbation failures are zeroed are not compared with the "
+    "model (whether a staircase remainder of rounding size is 0 or 1e-17 -- NaN or a slope after normalisation -- is decided by the rounding of p*n); "
+    "the Python oracle still judges them against the weights the implementation reports",
 ]
 
 MANIFEST = {
